@@ -270,6 +270,7 @@ def gen_tables(tier, rng):
     for a1 in R4:
         for a2 in R4:
             for wc in R4:
+                out.append(f"wctor {wc} {a1} {a2}")
                 out.append(f"bindfront2 {wc} {a1} {a2}")
                 for v in (4, 5):
                     out.append(f"notfn2 {wc} {a1} {a2} {v}")
@@ -318,6 +319,7 @@ def gen_tables(tier, rng):
         out.append("frefptr %d" % rng.randint(-1000, 1000))
         out.append("notfnstatic %d" % rng.randint(-3, 3))
         out.append("voidret %d" % rng.randint(-1000, 1000))
+        out.append("wrapcopy %d %d" % (rng.randint(-3, 3), rng.randint(-3, 3)))
         out.append("makepairref %d %d" % (rng.randint(-1000, 1000), rng.randint(-1000, 1000)))
     out.append("xfer")
     # tuple_cat result types (after the fix of the CTAD-built result) and tuple_element
